@@ -387,7 +387,26 @@ def judge(case):
         if "{" in around or "}" in around:
             return fail("text:brace-character-next-to-word@" + m.owner,
                         {"marker": m.i, "context": T[max(0, s - 6):e + 6], "source": a.source}, fl)
+    # ---- (5) the tree stays what it is when it is read --------------------------------------------
+    # (the documented read-only accessors a renderer or a table of contents uses)
+    for n, s_, e_, p_ in w.elements:
+        for acc in READ_ACCESSORS:
+            _, err = call_real(getattr, n, acc, None)
+            if err is not None and err.type not in ("AttributeError",):
+                return fail("read-accessor-raise:%s@%s" % (acc, w._name(n)), dict(err.detail(), source=a.source), fl)
+    w2 = Walk(doc)
+    if w2.problems:
+        key, detail = w2.problems[0]
+        return fail("after-reading-accessors:" + key, dict(detail, n_problems=len(w2.problems), source=a.source), fl)
+    bad = w2.chain_ok()
+    if bad is not None:
+        return fail("after-reading-accessors:tree:chain-does-not-reach-document@" + bad, {"source": a.source}, fl)
+    if [m[0] for m in w2.markers] != got:
+        return fail("after-reading-accessors:markers-changed", {"source": a.source}, fl)
     return ok(fl, nontrivial)
+
+
+READ_ACCESSORS = ("title", "tocEntry", "fullTitle", "fullTocEntry", "ref", "id", "captionName", "textContent")
 
 
 def check(case):
